@@ -178,3 +178,84 @@ Proof.
       pose proof (val_mad (seed_x dx lane) F32.zero _ (2 * (dx + lane) + 1) 0 _ Vx val_zero M1 ltac:(lia) ltac:(lia)) as M2.
       replace (2 * (dy - ty) + 1) with ((2 * (dx + lane) + 1) * 0 + ((2 * dy + 1) * 1 + - (2 * ty))) by lia. exact M2.
 Qed.
+
+(* ---- pad: outside the source the gather stage clamps to the nearest edge pixel ----------------------------------------------- *)
+Definition limit_ok3 (limit : Z) : bool := F32.lt (ulp_sub (F32.of_Z limit)) (F32.of_Z limit) && F32.lt F32.zero (ulp_sub (F32.of_Z limit)).
+Lemma limits_ok3 : forallb limit_ok3 (map Z.of_nat (seq 1 (Z.to_nat 16384))) = true.
+Proof. vm_compute. reflexivity. Qed.
+
+Definition clampZ (i n : Z) : Z := Z.max 0 (Z.min i (n - 1)).
+
+Lemma gather_coord_clamp x i limit : 1 <= limit <= 16384 -> Z.abs i < 8388608 -> val x (2 * i + 1) -> gather_coord x limit = clampZ i limit.
+Proof.
+  intros Hl Hi Hx. unfold clampZ.
+  destruct (Z_lt_le_dec i 0) as [Neg | Pos]; [| destruct (Z_lt_le_dec i limit) as [In | Out]].
+  - (* left of the image: max(x, 0) = 0 *)
+    pose proof Hx as (Fx & Rx).
+    assert (L : limit_ok3 limit = true).
+    { pose proof limits_ok3 as F. rewrite forallb_forall in F. apply F. apply in_map_iff. exists (Z.to_nat limit). split; [lia|]. apply in_seq. lia. }
+    unfold limit_ok3 in L. apply andb_true_iff in L. destruct L as (_ & L2).
+    assert (X0 : (R32 x < 0)%R).
+    { rewrite Rx. assert (IZR (2 * i + 1) <= IZR (-1))%R by (apply IZR_le; lia). lra. }
+    unfold gather_coord.
+    assert (E1 : wide_max x F32.zero = F32.zero).
+    { unfold wide_max, F32.gt, F32.lt. rewrite Bltb_correct by (auto; reflexivity). change (R32 F32.zero) with 0%R.
+      rewrite Rlt_bool_false by lra. reflexivity. }
+    rewrite E1. unfold wide_min. rewrite L2. cbn. lia.
+  - rewrite (gather_coord_centre x i limit Hl (conj Pos In) Hx). lia.
+  - (* right of the image: min(x, ulp_sub(limit)) = ulp_sub(limit), which truncates to limit - 1 *)
+    pose proof Hx as (Fx & Rx).
+    assert (L : limit_ok3 limit = true).
+    { pose proof limits_ok3 as F. rewrite forallb_forall in F. apply F. apply in_map_iff. exists (Z.to_nat limit). split; [lia|]. apply in_seq. lia. }
+    unfold limit_ok3 in L. apply andb_true_iff in L. destruct L as (L1 & L2).
+    assert (Lk : limit_ok limit = true).
+    { pose proof limits_ok as F. rewrite forallb_forall in F. apply F. apply in_map_iff. exists (Z.to_nat limit). split; [lia|]. apply in_seq. lia. }
+    pose proof Lk as Lk'. unfold limit_ok in Lk'. apply andb_true_iff in Lk'. destruct Lk' as (Lk1 & T). apply andb_true_iff in Lk1. destruct Lk1 as (Fm & _).
+    apply Z.eqb_eq in T. set (m := ulp_sub (F32.of_Z limit)) in *.
+    pose proof (val_of_Z limit ltac:(lia)) as (Fl & Rl).
+    unfold F32.lt in L1. rewrite Bltb_correct in L1 by assumption.
+    assert (Lm : (R32 m < IZR limit)%R).
+    { revert L1. unfold Rlt_bool. destruct (Rcompare_spec (R32 m) (R32 (F32.of_Z limit))) as [C | C | C]; try discriminate. intros _.
+      rewrite Rl in C. rewrite mult_IZR in C. lra. }
+    assert (X0 : (0 < R32 x)%R).
+    { rewrite Rx. assert (IZR 1 <= IZR (2 * i + 1))%R by (apply IZR_le; lia). lra. }
+    assert (Xm : (R32 m < R32 x)%R).
+    { rewrite Rx. assert (IZR (2 * limit + 1) <= IZR (2 * i + 1))%R by (apply IZR_le; lia). rewrite plus_IZR, mult_IZR in H. lra. }
+    unfold gather_coord.
+    assert (E1 : wide_max x F32.zero = x).
+    { unfold wide_max, F32.gt, F32.lt. rewrite Bltb_correct by (auto; reflexivity). change (R32 F32.zero) with 0%R. rewrite Rlt_bool_true by exact X0. reflexivity. }
+    rewrite E1.
+    assert (E2 : wide_min x (ulp_sub (F32.of_Z limit)) = m).
+    { unfold wide_min, F32.lt. fold m. rewrite Bltb_correct by assumption. rewrite Rlt_bool_false by lra. reflexivity. }
+    rewrite E2. unfold cvtt. destruct m as [s | s | | s mx ex Hb] eqn:Em; try discriminate Fm.
+    + cbn in T. lia.
+    + rewrite T. destruct (limit - 1 <? -2147483648) eqn:A; [apply Z.ltb_lt in A; lia|]. destruct (2147483647 <? limit - 1) eqn:B; [apply Z.ltb_lt in B; lia|]. cbn [orb]. lia.
+Qed.
+
+(* THE pad statement: with an integer translation the nearest sampler reads, for EVERY destination pixel, the source pixel at the
+   mapped position clamped to the image (inside the source rectangle this is nearest_translate_exact) *)
+Theorem nearest_translate_pad b w h tx ty dx lane dy :
+  1 <= w <= 16384 -> 1 <= h <= 16384 -> Z.abs tx < 2097152 -> Z.abs ty < 2097152 ->
+  0 <= dx < 2097152 -> 0 <= lane <= 7 -> 0 <= dy < 2097152 ->
+  nearest_ix b 0 w h (F32.of_Z tx) (F32.of_Z ty) dx lane dy = clampZ (dy - ty) h * w + clampZ (dx + lane - tx) w.
+Proof.
+  intros Hw Hh Htx Hty Hdx Hl Hdy. unfold nearest_ix.
+  pose proof (val_of_Z tx ltac:(lia)) as Vtx. pose proof (val_of_Z ty ltac:(lia)) as Vty.
+  pose proof (val_seed_x dx lane ltac:(lia) Hl) as Vx. pose proof (val_seed_y dy ltac:(lia)) as Vy.
+  rewrite (eq_zero_val _ _ Vtx), (eq_zero_val _ _ Vty).
+  assert (G : forall x y, val x (2 * (dx + lane - tx) + 1) -> val y (2 * (dy - ty) + 1) ->
+              gather_ix x y w h = clampZ (dy - ty) h * w + clampZ (dx + lane - tx) w).
+  { intros x y Ax Ay. unfold gather_ix. rewrite (gather_coord_clamp x (dx + lane - tx) w Hw ltac:(lia) Ax), (gather_coord_clamp y (dy - ty) h Hh ltac:(lia) Ay). reflexivity. }
+  destruct ((2 * tx =? 0) && (2 * ty =? 0)) eqn:Z0.
+  - apply andb_true_iff in Z0. destruct Z0 as (Z1 & Z2). apply Z.eqb_eq in Z1, Z2.
+    replace (dx + lane - tx) with (dx + lane) in * by lia. replace (dy - ty) with dy in * by lia. apply G; assumption.
+  - unfold stage_transform, inv_translate. cbn [t_sx t_ky t_kx t_sy t_tx t_ty].
+    pose proof (val_neg _ _ Vtx) as Ntx. pose proof (val_neg _ _ Vty) as Nty.
+    apply G.
+    + pose proof (val_mad (seed_y dy) F32.zero (F32.neg (F32.of_Z tx)) (2 * dy + 1) 0 (- (2 * tx)) Vy val_zero Ntx ltac:(lia) ltac:(lia)) as M1.
+      pose proof (val_mad (seed_x dx lane) F32.one _ (2 * (dx + lane) + 1) 1 _ Vx val_one M1 ltac:(lia) ltac:(lia)) as M2.
+      replace (2 * (dx + lane - tx) + 1) with ((2 * (dx + lane) + 1) * 1 + ((2 * dy + 1) * 0 + - (2 * tx))) by lia. exact M2.
+    + pose proof (val_mad (seed_y dy) F32.one (F32.neg (F32.of_Z ty)) (2 * dy + 1) 1 (- (2 * ty)) Vy val_one Nty ltac:(lia) ltac:(lia)) as M1.
+      pose proof (val_mad (seed_x dx lane) F32.zero _ (2 * (dx + lane) + 1) 0 _ Vx val_zero M1 ltac:(lia) ltac:(lia)) as M2.
+      replace (2 * (dy - ty) + 1) with ((2 * (dx + lane) + 1) * 0 + ((2 * dy + 1) * 1 + - (2 * ty))) by lia. exact M2.
+Qed.
